@@ -6,6 +6,7 @@
 //
 //	clean H | join H H | dir H                -> ok H                       (Go's path/filepath, the reference of Model/Path.lean)
 //	x FMT ENTRIES                             -> ok|err LISTING | skip      FMT = tgz | zip | txz
+//	xb FMT FILEBYTES                          -> ok|err LISTING | skip      the archive file given byte for byte (container-level cases)
 //	lib FMT SUB FNAME ENTRIES                 -> ok|err LISTING             one checkDownloadAndExtractLib call (httptest server)
 //	conc MODE N FMT SUB FNAME ENTRIES         -> ok|err nerr=K downloads=D LISTING   MODE = go | proc, N concurrent calls
 //	lockrace                                  -> holders=K                  acquireLock/releaseLock choreography (unlink-after-unlock)
@@ -302,6 +303,12 @@ func doExtract(fmtName string, es []entry) string {
 	if err != nil {
 		return "skip"
 	}
+	return doExtractBytes(fmtName, ar)
+}
+
+// the archive file is given byte for byte; the generator is responsible for names that stay inside the case directory
+func doExtractBytes(fmtName string, ar []byte) string {
+	var err error
 	cd := newCase()
 	dest := filepath.Join(cd, destRel)
 	if err := os.MkdirAll(dest, 0755); err != nil {
@@ -473,6 +480,12 @@ func handle(line string) (out string) {
 			return "bad-op"
 		}
 		return doExtract(f[1], es)
+	case f[0] == "xb" && len(f) == 3:
+		b, ok := unhex(f[2])
+		if !ok || (f[1] != "tgz" && f[1] != "zip" && f[1] != "txz") {
+			return "bad-op"
+		}
+		return doExtractBytes(f[1], []byte(b))
 	case f[0] == "conc" && len(f) == 7:
 		n, err := strconv.Atoi(f[2])
 		sub, ok1 := unhex(f[4])
